@@ -75,6 +75,7 @@ class Planner:
             "icls": subset(r, ICLS, 0.5),
             "zero_batches": r.random() < 0.25 and prop == "C12",
             "pre_trainable": r.random() < 0.15 and prop in ("C08", "C11"),
+            "mixed_modes": r.random() < 0.2 and prop == "C08",
             "fault_kinds": subset(r, cfg.get("fault_kinds", ["module", "aten", "line"]), 0.6) if cfg.get("faults") else [],
             "fault_p": r.choice([0.15, 0.3, 0.5]) if cfg.get("faults") else 0.0,
             "interrupt": r.random() < 0.5,
@@ -259,6 +260,8 @@ class Planner:
         self.deps[a.id] = a
         self.emit(ops, {"op": "build", "dep": a.id, "arch": a.arch, "in_shape": a.in_shape, "dtype": a.dtype, "init": a.init, "wcls": a.wcls})
         if quantize:
+            if self.sw.get("mixed_modes") and r.random() < 0.7:
+                self.emit(ops, {"op": "set_mode", "dep": a.id, "seed": self.S.sub("mode", a.id) % (1 << 30), "frac": r.choice([0.3, 0.5, 0.8]), "train": True})
             if self.sw.get("pre_trainable") and r.random() < 0.6:
                 # the float model arrives with some parameters already frozen by the caller (bias-only fine-tuning)
                 self.emit(ops, {"op": "set_trainable", "dep": a.id, "weights": r.random() < 0.3, "biases": r.random() < 0.8})
@@ -689,6 +692,8 @@ def h_train(P, ops, a, lr_p=0.5):
         op["loss"] = r.choice(["sum", "sum", "mean", "twice", "zero", "last"])
     if r.random() < 0.3:
         op["peek"] = True
+    if a.family == "cnn" and r.random() < 0.3:
+        op["cl"] = True
     if r.random() < 0.2:
         d2 = P.input_desc(a, fresh=True)
         d2.pop("q", None)
@@ -942,6 +947,29 @@ def plan_c12(P):
                 op2["momentum"] = r.choice([0.9, 0.5, 0.0])
                 op2["streamline"] = st
                 op2.pop("debug", None)
+        if a.family == "mlp" and a.activations and r.random() < 0.3:
+            # stage-wise calibration: a producer's outputs are kept, the producer runs again on another batch, and only
+            # then is the kept tensor fed to its consumer
+            from . import archs as _archs
+
+            lins = [(pth, sp) for pth, sp in _archs.walk_leaves(a.arch) if sp["k"] == "lin" and pth in a.qpaths]
+            pairs = [(lins[i], lins[i + 1]) for i in range(len(lins) - 1) if lins[i][1]["o"] == lins[i + 1][1]["i"]]
+            if pairs:
+                (pa, sa), (pb, sb) = r.choice(pairs)
+
+                def gbody(bops, depth, a=a, pa=pa, sa=sa, pb=pb):
+                    for j in range(r.randint(1, 2)):
+                        lead = [r.choice([1, 2, 3])]
+                        d1 = {"seed": P.S.sub("stage", P.nops), "lead": lead, "cls": r.choice(ICLS), "mag": r.choice([1.0, 0.1]), "feat": [sa["i"]]}
+                        d2 = {"seed": P.S.sub("stage2", P.nops), "lead": lead, "cls": r.choice(ICLS), "mag": r.choice([10.0, 100.0, 3.0]), "feat": [sa["i"]]}
+                        P.emit(bops, {"op": "forward", "dep": a.id, "input": d1, "sub": pa, "keep": f"s{j}"})
+                        P.emit(bops, {"op": "forward", "dep": a.id, "input": d2, "sub": pa})
+                        P.emit(bops, {"op": "forward", "dep": a.id, "input": d1, "sub": pb, "input_from": f"s{j}"})
+
+                op3 = P.calib(ops, gbody, 0)
+                op3["momentum"] = r.choice([0.9, 0.5, 0.0])
+                op3["streamline"] = False
+                op3.pop("debug", None)
         if r.random() < 0.3:
             fid = h_save(P, ops, a)
             b = h_load(P, ops, fid, target=r.choice(["same", "same", "requantize", "default"]), restart=True)
